@@ -1,24 +1,616 @@
-//! C16 — not implemented yet (stub so that the registry compiles).
+//! C16 — configuration abstractions are transparent (metamorphic check).
+//!
+//! A generated configuration is rewritten with semantically neutral indirection (defalias, defvar
+//! incl. concat, deftemplate / template-expand / t! with if-equal, include, platform incl. an
+//! inactive-platform decoy, deflayer -> deflayermap), singly and in random compositions. Required:
+//! the rewritten text is accepted iff the original is; the parsed artefacts agree (mapped keys, key
+//! outputs, overrides, sequences, virtual-key map, options, Debug rendering of every mapped layer
+//! cell); the OS traces on random histories are identical tick by tick.
 
+use crate::core::rng::Rng;
+use crate::core::sim::{first_diff, osc, render_hist, Ev, FileMap, Sim};
 use crate::core::{CaseOut, Check, Ctx};
+use crate::gen::sexp::{self, Node};
+use crate::gen::{self, hist, GenCfg, Profile, K};
+use serde_json::{json, Value};
+use std::collections::BTreeMap;
 
 pub struct C16Check;
 pub static C16: C16Check = C16Check;
+
+const KINDS: [&str; 9] = ["alias", "var-action", "var-atom", "var-concat", "template", "template-if-equal", "include", "platform", "layermap"];
+
+fn profile() -> Profile {
+    // kinds whose run-time behaviour crashes on the unchanged tree (C02's findings) or sleeps are left out
+    let mut p = Profile::full().without(&[K::RptAny, K::DynMacro, K::Delay]);
+    p.chords_v2 = false;
+    p.max_depth = 3;
+    p
+}
+
+fn atom(s: &str) -> Node {
+    Node::Atom(s.to_string())
+}
+fn list(v: Vec<Node>) -> Node {
+    Node::List(v)
+}
+fn head(n: &Node) -> Option<&str> {
+    match n {
+        Node::List(l) => match l.first() {
+            Some(Node::Atom(a)) => Some(a.as_str()),
+            _ => None,
+        },
+        _ => None,
+    }
+}
+fn contains_atom(n: &Node, pred: &dyn Fn(&str) -> bool) -> bool {
+    match n {
+        Node::Atom(a) => pred(a),
+        Node::List(l) => l.iter().any(|x| contains_atom(x, pred)),
+    }
+}
+fn is_number(n: &Node) -> bool {
+    matches!(n, Node::Atom(a) if !a.is_empty() && a.chars().all(|c| c.is_ascii_digit()))
+}
+
+fn get_mut<'a>(forms: &'a mut [Node], path: &[usize]) -> Option<&'a mut Node> {
+    let mut cur = forms.get_mut(*path.first()?)?;
+    for &i in &path[1..] {
+        match cur {
+            Node::List(l) => cur = l.get_mut(i)?,
+            _ => return None,
+        }
+    }
+    Some(cur)
+}
+
+/// indices of the children of action list `n` that are themselves actions
+fn action_children(n: &Node) -> Vec<usize> {
+    let Node::List(l) = n else { return vec![] };
+    let Some(h) = head(n) else { return vec![] };
+    match h {
+        "multi" => (1..l.len()).filter(|&i| !matches!(&l[i], Node::Atom(a) if a == "reverse-release-order")).collect(),
+        "tap-hold" | "tap-hold-press" | "tap-hold-release" | "tap-hold-release-keys" | "tap-hold-except-keys" => [3usize, 4].into_iter().filter(|&i| i < l.len()).collect(),
+        "tap-hold-press-timeout" | "tap-hold-release-timeout" => [3usize, 4, 5].into_iter().filter(|&i| i < l.len()).collect(),
+        "fork" => [1usize, 2].into_iter().filter(|&i| i < l.len()).collect(),
+        "switch" => (1..l.len()).filter(|i| i % 3 == 2).collect(),
+        _ => vec![],
+    }
+}
+/// indices of children of `n` that are timeout numbers (never inside macros, where a number is a delay item)
+fn number_children(n: &Node) -> Vec<usize> {
+    let Node::List(l) = n else { return vec![] };
+    let Some(h) = head(n) else { return vec![] };
+    let idx: Vec<usize> = if h.starts_with("tap-hold") {
+        vec![1, 2]
+    } else if h.starts_with("one-shot") || h.starts_with("tap-dance") || h.starts_with("caps-word") || h == "hold-for-duration" {
+        vec![1]
+    } else {
+        vec![]
+    };
+    idx.into_iter().filter(|&i| i < l.len() && is_number(&l[i])).collect()
+}
+
+/// paths of all action positions reachable from layer cells (cells first, then nested)
+fn action_sites(forms: &[Node]) -> Vec<Vec<usize>> {
+    let mut out = vec![];
+    fn rec(n: &Node, path: &mut Vec<usize>, out: &mut Vec<Vec<usize>>) {
+        out.push(path.clone());
+        if let Node::List(l) = n {
+            if head(n) == Some("tap-dance") || head(n) == Some("tap-dance-eager") {
+                if let Some(Node::List(items)) = l.get(2) {
+                    for (j, x) in items.iter().enumerate() {
+                        path.push(2);
+                        path.push(j);
+                        rec(x, path, out);
+                        path.pop();
+                        path.pop();
+                    }
+                }
+            }
+            for i in action_children(n) {
+                path.push(i);
+                rec(&l[i], path, out);
+                path.pop();
+            }
+        }
+    }
+    for (fi, f) in forms.iter().enumerate() {
+        let Node::List(l) = f else { continue };
+        match head(f) {
+            Some("deflayer") => {
+                for i in 2..l.len() {
+                    let mut p = vec![fi, i];
+                    rec(&l[i], &mut p, &mut out);
+                }
+            }
+            Some("deflayermap") => {
+                let mut i = 3;
+                while i < l.len() {
+                    let mut p = vec![fi, i];
+                    rec(&l[i], &mut p, &mut out);
+                    i += 2;
+                }
+            }
+            _ => {}
+        }
+    }
+    out
+}
+
+struct Rw {
+    forms: Vec<Node>,
+    files: Vec<(String, String)>,
+    n: usize,
+    applied: Vec<&'static str>,
+}
+
+impl Rw {
+    fn fresh(&mut self, p: &str) -> String {
+        self.n += 1;
+        format!("{p}{}", self.n)
+    }
+
+    fn uses_template(n: &Node) -> bool {
+        contains_atom(n, &|a| a == "t!" || a == "template-expand")
+    }
+
+    fn alias(&mut self, rng: &mut Rng) -> bool {
+        let sites: Vec<Vec<usize>> = action_sites(&self.forms)
+            .into_iter()
+            .filter(|p| match sexp::get(&self.forms, p) {
+                Some(Node::Atom(a)) => a != "reverse-release-order",
+                Some(_) => true,
+                None => false,
+            })
+            .collect();
+        if sites.is_empty() {
+            return false;
+        }
+        let site = rng.pick(&sites).clone();
+        let name = self.fresh("zz");
+        let Some(slot) = get_mut(&mut self.forms, &site) else { return false };
+        let old = std::mem::replace(slot, atom(&format!("@{name}")));
+        // defined before use: directly in front of the form that now refers to it
+        self.forms.insert(site[0], list(vec![atom("defalias"), atom(&name), old]));
+        true
+    }
+
+    /// mode 0: whole action list, 1: atom (key or number), 2: atom through concat
+    fn var(&mut self, rng: &mut Rng, mode: u8) -> bool {
+        let mut sites: Vec<Vec<usize>> = vec![];
+        for p in action_sites(&self.forms) {
+            let Some(n) = sexp::get(&self.forms, &p) else { continue };
+            match (mode, n) {
+                (0, Node::List(_)) => sites.push(p),
+                (1 | 2, Node::Atom(a)) => {
+                    // an action name cannot be a variable: only key-like atoms
+                    if a.chars().all(|c| c.is_ascii_alphanumeric()) && a.len() >= (if mode == 2 { 2 } else { 1 }) && a != "rpt" && a != "sldr" {
+                        sites.push(p);
+                    }
+                }
+                (1 | 2, Node::List(_)) => {
+                    for i in number_children(n) {
+                        if mode == 1 || matches!(&sexp::get(&self.forms, &[p.clone(), vec![i]].concat()), Some(Node::Atom(a)) if a.len() >= 2) {
+                            let mut q = p.clone();
+                            q.push(i);
+                            sites.push(q);
+                        }
+                    }
+                }
+                _ => {}
+            }
+        }
+        if sites.is_empty() {
+            return false;
+        }
+        let site = rng.pick(&sites).clone();
+        let name = self.fresh("zv");
+        let Some(slot) = get_mut(&mut self.forms, &site) else { return false };
+        let old = std::mem::replace(slot, atom(&format!("${name}")));
+        let value = match (mode, &old) {
+            (2, Node::Atom(a)) => {
+                let cut = 1 + rng.usize(a.len() - 1);
+                let (x, y) = a.split_at(cut);
+                list(vec![atom("concat"), atom(x), atom(&format!("\"{y}\""))])
+            }
+            _ => old,
+        };
+        let def = list(vec![atom("defvar"), atom(&name), value]);
+        // all defvar forms are read before anything that uses them; the position is free
+        let pos = match rng.usize(3) {
+            0 => site[0],
+            1 => self.forms.len(),
+            _ => rng.usize(self.forms.len() + 1),
+        };
+        // keep it out of the way of a defcfg that must stay first-ish: any position is legal
+        self.forms.insert(pos, def);
+        true
+    }
+
+    fn template(&mut self, rng: &mut Rng, if_equal: bool) -> bool {
+        // parent action list with a child (action or timeout number) that becomes the argument
+        let mut cands: Vec<(Vec<usize>, usize)> = vec![];
+        for p in action_sites(&self.forms) {
+            let Some(n) = sexp::get(&self.forms, &p) else { continue };
+            if !matches!(n, Node::List(_)) || Self::uses_template(n) {
+                continue;
+            }
+            for i in action_children(n).into_iter().chain(number_children(n)) {
+                cands.push((p.clone(), i));
+            }
+        }
+        if cands.is_empty() {
+            return false;
+        }
+        let (site, ci) = rng.pick(&cands).clone();
+        let tname = self.fresh("zt");
+        let Some(slot) = get_mut(&mut self.forms, &site) else { return false };
+        let Node::List(mut body) = slot.clone() else { return false };
+        let arg = std::mem::replace(&mut body[ci], atom("$zp"));
+        let expand = if rng.coin() { "t!" } else { "template-expand" };
+        let (params, content, call): (Node, Vec<Node>, Node) = if if_equal {
+            (
+                list(vec![atom("zp"), atom("zq")]),
+                vec![
+                    list(vec![atom("if-equal"), atom("$zq"), atom("yes"), list(body)]),
+                    list(vec![atom("if-equal"), atom("$zq"), atom("no"), list(vec![atom("this-is-not-an-action"), atom("$zp")])]),
+                    list(vec![atom("if-not-equal"), atom("$zq"), atom("yes"), atom("neither-is-this")]),
+                ],
+                list(vec![atom(expand), atom(&tname), arg, atom("yes")]),
+            )
+        } else {
+            (list(vec![atom("zp")]), vec![list(body)], list(vec![atom(expand), atom(&tname), arg]))
+        };
+        *slot = call;
+        let mut def = vec![atom("deftemplate"), atom(&tname), params];
+        def.extend(content);
+        // declared before its use
+        let pos = rng.usize(site[0] + 1);
+        self.forms.insert(pos, list(def));
+        true
+    }
+
+    fn movable(f: &Node) -> bool {
+        !matches!(head(f), Some("include") | Some("platform"))
+    }
+
+    fn run_of_forms(&self, rng: &mut Rng) -> Option<(usize, usize)> {
+        if self.forms.is_empty() {
+            return None;
+        }
+        for _ in 0..8 {
+            let i = rng.usize(self.forms.len());
+            let j = (i + 1 + rng.usize(3)).min(self.forms.len());
+            if self.forms[i..j].iter().all(Self::movable) {
+                return Some((i, j));
+            }
+        }
+        None
+    }
+
+    fn include(&mut self, rng: &mut Rng) -> bool {
+        let Some((i, j)) = self.run_of_forms(rng) else { return false };
+        let fname = format!("{}.kbd", self.fresh("zinc"));
+        let moved: Vec<Node> = self.forms.drain(i..j).collect();
+        self.files.push((fname.clone(), sexp::print(&moved)));
+        self.forms.insert(i, list(vec![atom("include"), atom(&fname)]));
+        true
+    }
+
+    fn platform(&mut self, rng: &mut Rng) -> bool {
+        let Some((i, j)) = self.run_of_forms(rng) else { return false };
+        // one configuration item per platform form (the parser requires exactly that)
+        for k in i..j {
+            let item = std::mem::replace(&mut self.forms[k], atom("x"));
+            let plats = if rng.coin() { list(vec![atom("linux")]) } else { list(vec![atom("macos"), atom("linux")]) };
+            self.forms[k] = list(vec![atom("platform"), plats, item]);
+        }
+        // an item for a platform that is not this one is dropped before it is looked at
+        let decoy = list(vec![atom("platform"), list(vec![atom("win"), atom("winiov2")]), list(vec![atom("garbage"), atom("that"), list(vec![atom("would")]), atom("\"not parse\""), atom("@nowhere"), atom("$nothing")])]);
+        let pos = rng.usize(self.forms.len() + 1);
+        self.forms.insert(pos, decoy);
+        true
+    }
+
+    fn layermap(&mut self, rng: &mut Rng) -> bool {
+        let Some(keys) = self.forms.iter().find(|f| head(f) == Some("defsrc")).and_then(|f| match f {
+            Node::List(l) if l[1..].iter().all(|x| matches!(x, Node::Atom(_))) => Some(l[1..].to_vec()),
+            _ => None,
+        }) else {
+            return false;
+        };
+        let cands: Vec<usize> = self
+            .forms
+            .iter()
+            .enumerate()
+            .filter(|(_, f)| head(f) == Some("deflayer") && matches!(f, Node::List(l) if l.len() == keys.len() + 2 && matches!(l[1], Node::Atom(_))))
+            .map(|(i, _)| i)
+            .collect();
+        if cands.is_empty() {
+            return false;
+        }
+        let fi = *rng.pick(&cands);
+        let Node::List(l) = self.forms[fi].clone() else { return false };
+        let mut v = vec![atom("deflayermap"), list(vec![l[1].clone()])];
+        let mut order: Vec<usize> = (0..keys.len()).collect();
+        if rng.coin() {
+            rng.shuffle(&mut order);
+        }
+        for k in order {
+            v.push(keys[k].clone());
+            v.push(l[2 + k].clone());
+        }
+        self.forms[fi] = list(v);
+        true
+    }
+
+    fn apply(&mut self, kind: &'static str, rng: &mut Rng) -> bool {
+        let ok = match kind {
+            "alias" => self.alias(rng),
+            "var-action" => self.var(rng, 0),
+            "var-atom" => self.var(rng, 1),
+            "var-concat" => self.var(rng, 2),
+            "template" => self.template(rng, false),
+            "template-if-equal" => self.template(rng, true),
+            "include" => self.include(rng),
+            "platform" => self.platform(rng),
+            "layermap" => self.layermap(rng),
+            _ => false,
+        };
+        if ok {
+            self.applied.push(kind);
+        }
+        ok
+    }
+}
+
+fn file_map(files: &[(String, String)]) -> FileMap {
+    let mut fm = FileMap::default();
+    for (n, t) in files {
+        fm.insert(n.clone(), t.clone());
+    }
+    fm
+}
+
+/// everything the parser produced that the property names, rendered as text
+fn digest(text: &str, files: &[(String, String)]) -> Result<BTreeMap<&'static str, String>, String> {
+    let cfg = kanata_parser::cfg::new_from_str(text, file_map(files)).map_err(|e| {
+        let h = miette::Diagnostic::help(&*e).map(|h| h.to_string()).unwrap_or_default();
+        format!("{e} {h}").lines().next().unwrap_or("").to_string()
+    })?;
+    let mut d = BTreeMap::new();
+    let mut mk: Vec<u16> = cfg.mapped_keys.iter().map(|o| o.as_u16()).collect();
+    mk.sort();
+    d.insert("mapped_keys", format!("{mk:?}"));
+    let mut ko = String::new();
+    for m in cfg.key_outputs.iter() {
+        let mut es: Vec<(u16, Vec<u16>)> = m.iter().map(|(k, v)| (k.as_u16(), v.iter().map(|o| o.as_u16()).collect())).collect();
+        es.sort();
+        ko.push_str(&format!("{es:?};"));
+    }
+    d.insert("key_outputs", ko);
+    d.insert("overrides", format!("{:?}", cfg.overrides));
+    d.insert("sequences", format!("{:?}", cfg.sequences));
+    let mut fk: Vec<(String, usize)> = cfg.fake_keys.iter().map(|(k, v)| (k.clone(), *v)).collect();
+    fk.sort();
+    d.insert("virtual_key_map", format!("{fk:?}"));
+    d.insert("options", format!("{:?}", cfg.options));
+    d.insert("layer_names", format!("{:?}", cfg.layer_info.iter().map(|l| l.name.clone()).collect::<Vec<_>>()));
+    let mut cells = String::new();
+    let lay = cfg.layout.b();
+    for (li, layer) in lay.layers.iter().enumerate() {
+        for k in &mk {
+            cells.push_str(&format!("L{li}k{k}={:?}\n", layer[0][*k as usize]));
+        }
+        for (_, idx) in &fk {
+            cells.push_str(&format!("L{li}v{idx}={:?}\n", layer[1][*idx]));
+        }
+    }
+    d.insert("layer_cells", cells);
+    Ok(d)
+}
+
+fn first_line_diff(a: &str, b: &str) -> String {
+    for (x, y) in a.lines().zip(b.lines()) {
+        if x != y {
+            let cut = |s: &str| s.chars().take(300).collect::<String>();
+            return format!("{} <> {}", cut(x), cut(y));
+        }
+    }
+    format!("lengths {} <> {}", a.len(), b.len())
+}
+
+struct Case {
+    g: GenCfg,
+    variants: Vec<(Vec<&'static str>, String, Vec<(String, String)>)>,
+    hists: Vec<Vec<Ev>>,
+}
+
+const N_SYS: u64 = 9 * 40;
+
+fn make_case(ctx: &Ctx, idx: u64) -> Case {
+    // first block: every rewrite kind singly on seed-independent configurations
+    let sys = idx < N_SYS;
+    let mut rng = if sys { Rng::for_case(0x5eed, "C16", "sys", idx) } else { Rng::for_case(ctx.seed, "C16", "case", idx) };
+    let p = profile();
+    let g = gen::generate(&mut rng, &p);
+    let mut variants = vec![];
+    if let Some(forms) = sexp::parse(&g.text) {
+        let mut plans: Vec<Vec<&'static str>> = vec![];
+        if sys {
+            plans.push(vec![KINDS[(idx % 9) as usize]]);
+        } else {
+            plans.push(vec![*rng.pick(&KINDS)]);
+            plans.push(vec![*rng.pick(&KINDS)]);
+            let n = 2 + rng.usize(ctx.tier.sel(3, 5));
+            plans.push((0..n).map(|_| *rng.pick(&KINDS)).collect());
+        }
+        for plan in plans {
+            let mut rw = Rw { forms: forms.clone(), files: vec![], n: 0, applied: vec![] };
+            for k in plan {
+                rw.apply(k, &mut rng);
+            }
+            if !rw.applied.is_empty() {
+                variants.push((rw.applied.clone(), sexp::print(&rw.forms), rw.files.clone()));
+            }
+        }
+    }
+    let keys: Vec<u16> = g.keys.iter().map(|k| osc(k)).collect();
+    let mut gaps: Vec<u32> = vec![0, 1, 2, 7, 30];
+    for n in g.numbers.iter().take(10) {
+        let n = (*n).min(300) as u32;
+        gaps.extend_from_slice(&[n.saturating_sub(1), n, n + 1]);
+    }
+    let hists = (0..2).map(|i| hist::consistent(&mut rng, &keys, 12 + 20 * i, &gaps, true)).collect();
+    Case { g, variants, hists }
+}
+
+fn run_trace(text: &str, files: &[(String, String)], h: &[Ev]) -> Result<Sim, String> {
+    let mut sim = Sim::new_with_files(text, file_map(files))?;
+    sim.run(h);
+    sim.ticks(400);
+    Ok(sim)
+}
 
 impl Check for C16Check {
     fn id(&self) -> &'static str {
         "C16"
     }
-    fn n_cases(&self, _ctx: &Ctx) -> u64 {
-        0
+    fn n_cases(&self, ctx: &Ctx) -> u64 {
+        N_SYS + ctx.tier.sel(6_000, 80_000)
     }
-    fn run_case(&self, _ctx: &Ctx, _idx: u64) -> CaseOut {
-        CaseOut::new()
+    fn describe(&self, ctx: &Ctx, idx: u64) -> Value {
+        let c = make_case(ctx, idx);
+        json!({"config": c.g.text, "variants": c.variants.iter().map(|(k, t, f)| json!({"rewrites": k, "config": t, "files": f})).collect::<Vec<_>>(), "histories": c.hists.iter().map(|h| render_hist(h)).collect::<Vec<_>>()})
+    }
+    fn run_case(&self, ctx: &Ctx, idx: u64) -> CaseOut {
+        let mut out = CaseOut::new();
+        let c = make_case(ctx, idx);
+        out.inc("configs");
+        let orig = digest(&c.g.text, &[]);
+        match &orig {
+            Ok(_) => out.inc("originals_accepted"),
+            Err(_) => out.inc("originals_rejected"),
+        }
+        // a rendering that is not a function of the text (addresses) cannot be compared
+        let stable = match (&orig, digest(&c.g.text, &[])) {
+            (Ok(a), Ok(b)) => *a == b,
+            _ => true,
+        };
+        if !stable {
+            out.inc("originals_with_unstable_rendering");
+        }
+        let mut orig_traces: Vec<Option<Sim>> = vec![];
+        for (kinds, text, files) in &c.variants {
+            let mut ks: Vec<&str> = kinds.clone();
+            ks.sort();
+            ks.dedup();
+            let label = ks.join("+");
+            for k in kinds {
+                out.inc(&format!("applied:{k}"));
+            }
+            out.inc("variants");
+            if kinds.len() > 1 {
+                out.inc("variants_composed");
+            }
+            out.max("composition_length", kinds.len() as u64);
+            let rewritten = digest(text, files);
+            let witness = |obs: Value, exp: Value, history: String| json!({"config": c.g.text, "rewrites": kinds, "rewritten_config": text, "files": files, "history": history, "observed": obs, "expected": exp});
+            match (&orig, &rewritten) {
+                (Err(_), Err(_)) => {
+                    out.inc("both_rejected");
+                    out.tag(format!("rej:{label}"));
+                }
+                (Ok(_), Err(e)) => {
+                    out.violate(format!("C16:accepted-original-rejected-rewrite:{label}"), format!("the original is accepted, the version rewritten with {kinds:?} is rejected: {e}"), witness(json!({"rewritten": format!("rejected: {e}")}), json!({"rewritten": "accepted"}), String::new()));
+                }
+                (Err(e), Ok(_)) => {
+                    out.violate(format!("C16:rejected-original-accepted-rewrite:{label}"), format!("the original is rejected ({e}), the version rewritten with {kinds:?} is accepted"), witness(json!({"original": format!("rejected: {e}"), "rewritten": "accepted"}), json!({"rewritten": "rejected"}), String::new()));
+                }
+                (Ok(a), Ok(b)) => {
+                    out.inc("both_accepted");
+                    out.tag(format!("acc:{label}:{}", c.g.kinds_used.iter().take(6).copied().collect::<Vec<_>>().join(",")));
+                    let mut artefacts_equal = true;
+                    for (k, va) in a {
+                        if k == &"layer_cells" && !stable {
+                            continue;
+                        }
+                        let vb = b.get(k).cloned().unwrap_or_default();
+                        if *va != vb {
+                            artefacts_equal = false;
+                            out.violate(format!("C16:parsed-{k}-differ:{label}"), format!("{k} of the parsed configuration change under the rewrite {kinds:?}: {}", first_line_diff(va, &vb)), witness(json!({k.to_string(): first_line_diff(va, &vb)}), json!("identical"), String::new()));
+                        }
+                    }
+                    if artefacts_equal {
+                        out.inc("parsed_artefacts_equal");
+                    }
+                    // behaviour
+                    for (hi, h) in c.hists.iter().enumerate() {
+                        if orig_traces.len() <= hi {
+                            orig_traces.push(run_trace(&c.g.text, &[], h).ok());
+                        }
+                        let Some(sa) = &orig_traces[hi] else {
+                            out.inconclusive = Some("original accepted by the parser but refused by Kanata::new_from_str".into());
+                            continue;
+                        };
+                        match run_trace(text, files, h) {
+                            Ok(sb) => {
+                                out.inc("histories_compared");
+                                out.count("outputs_compared", sa.trace.len() as u64);
+                                if let Some(d) = first_diff(&sa.trace, &sb.trace) {
+                                    out.violate(format!("C16:trace-differs:{label}"), format!("OS trace differs after rewriting with {kinds:?}: {d}"), witness(json!({"first_difference": d, "original_trace": sa.trace_short(), "rewritten_trace": sb.trace_short()}), json!("identical traces"), render_hist(h)));
+                                } else if sa.os.describe() != sb.os.describe() || sa.is_idle() != sb.is_idle() {
+                                    out.violate(format!("C16:end-state-differs:{label}"), format!("end state differs after rewriting with {kinds:?}"), witness(json!({"original": sa.os.describe(), "rewritten": sb.os.describe()}), json!("identical"), render_hist(h)));
+                                } else {
+                                    out.inc("traces_equal");
+                                    if !sa.trace.is_empty() {
+                                        out.inc("nonempty_traces_equal");
+                                    }
+                                }
+                            }
+                            Err(e) => {
+                                out.violate(format!("C16:accepted-original-rejected-rewrite:{label}"), format!("rewritten configuration refused when building Kanata: {e}"), witness(json!({"rewritten": e}), json!("accepted"), String::new()));
+                            }
+                        }
+                    }
+                }
+            }
+        }
+        if idx % 300 == 11 || idx == 2 {
+            if let Some((k, t, f)) = c.variants.last() {
+                out.sample = Some(json!({"idx": idx, "original": c.g.text, "rewrites": k, "rewritten": t, "files": f}));
+            }
+        }
+        out
     }
     fn rule(&self) -> String {
-        "not implemented".into()
+        "case = one grammar-generated configuration (whole action grammar except rpt-any, dynamic macros, on-press/release-delay and chords v2; boundary numbers and deliberately rejected ones included) x up to 3 rewritten variants: two single rewrites and one composition of 2-4 (quick) / 2-6 (thorough) drawn from {defalias + @name at an action position of a layer cell or nested in multi/tap-hold/fork/switch/tap-dance; defvar of a whole action list; defvar of a key atom or timeout number; the same through (concat ..); deftemplate with the sub-action or number as argument expanded with t!/template-expand; the same guarded by if-equal / if-not-equal with decoy branches; 1-3 consecutive top-level items moved into an included file; the same wrapped in (platform (linux) ..) plus an unparsable (platform (win winiov2) ..) decoy; a deflayer rewritten as deflayermap with keys in defsrc or shuffled order}. The first 360 cases apply each of the 9 rewrite kinds singly to 40 configurations that are the same for every seed. Compared: accept/reject, mapped keys, key outputs, overrides, sequence trie, virtual-key map, options, layer names, Debug rendering of every mapped layer cell and virtual-key cell of every layer, and the OS trace (tick-exact, redundant releases dropped) + end state on 2 random physically consistent histories with OS repeats and gaps around every configured number. Non-trivial = variant with at least one rewrite applied; distinct = (accept/reject, set of rewrite kinds, action kinds in the configuration).".into()
     }
     fn assumptions(&self) -> Vec<String> {
-        vec![]
+        vec![
+            "rewrite sites are restricted to places where the guide promises neutrality: aliases and variables only at action positions reachable from deflayer/deflayermap cells (not in defvirtualkeys/defchords, not action names, not inside macros or quoted strings); aliases are defined directly before the form that uses them; templates are declared before their use and never nested; include/platform are applied to whole top-level items only and never nested in each other".into(),
+            "variables standing for atoms are only used for alphanumeric key names and timeout numbers".into(),
+            "configurations whose Debug rendering is not a function of the text (two parses of the original differ) are compared on everything except the cell rendering".into(),
+            "actions known to crash or sleep at run time on the unchanged tree (rpt-any, dynamic macros, on-press-delay, chords v2 with use-defsrc) are not generated".into(),
+        ]
+    }
+    fn floors(&self, _ctx: &Ctx) -> Vec<(&'static str, u64)> {
+        vec![
+            ("both_accepted", 2000),
+            ("both_rejected", 100),
+            ("parsed_artefacts_equal", 2000),
+            ("nonempty_traces_equal", 2000),
+            ("variants_composed", 800),
+            ("applied:alias", 300),
+            ("applied:var-action", 300),
+            ("applied:var-atom", 300),
+            ("applied:var-concat", 300),
+            ("applied:template", 300),
+            ("applied:template-if-equal", 300),
+            ("applied:include", 300),
+            ("applied:platform", 300),
+            ("applied:layermap", 300),
+        ]
     }
 }
